@@ -134,8 +134,13 @@ func exactBound(param string, isDur bool) (*big.Float, bool) {
 		if d, err := time.ParseDuration(param); err == nil {
 			return new(big.Float).SetPrec(256).SetInt64(int64(d)), true
 		}
-		b, ok := parseBound(param, true)
-		return new(big.Float).SetPrec(256).SetFloat64(b), ok
+		// a number of seconds, taken exactly
+		b, ok := new(big.Float).SetPrec(256).SetString(param)
+		if !ok {
+			f, okf := parseBound(param, true) // inf
+			return new(big.Float).SetPrec(256).SetFloat64(f), okf
+		}
+		return b.Mul(b, new(big.Float).SetPrec(256).SetInt64(int64(time.Second))), true
 	}
 	b, ok := new(big.Float).SetPrec(256).SetString(param)
 	return b, ok
@@ -308,11 +313,20 @@ func ptrShape(t reflect.Type) bool {
 
 // walkValue visits v (held in the way `shape` says) and everything below it.
 func walkValue(v reflect.Value, path, shape, tag string, out *[]finding) {
+	walkSeen(v, path, shape, tag, out, map[uintptr]bool{})
+}
+
+// walkSeen: seen holds the pointers already followed (pre-filled values may be cyclic).
+func walkSeen(v reflect.Value, path, shape, tag string, out *[]finding, seen map[uintptr]bool) {
+	walkValue := func(v reflect.Value, path, shape, tag string, out *[]finding) {
+		walkSeen(v, path, shape, tag, out, seen)
+	}
 	switch v.Kind() {
 	case reflect.Ptr:
-		if v.IsNil() {
+		if v.IsNil() || seen[v.Pointer()] {
 			return
 		}
+		seen[v.Pointer()] = true
 		walkValue(v.Elem(), path, shape, tag, out)
 		return
 	case reflect.Interface:
@@ -388,6 +402,9 @@ func walkValue(v reflect.Value, path, shape, tag string, out *[]finding) {
 		keys := v.MapKeys()
 		sort.Slice(keys, func(i, j int) bool { return fmt.Sprint(keys[i]) < fmt.Sprint(keys[j]) })
 		for _, k := range keys {
+			if err := callValidate(k); err != nil {
+				*out = append(*out, finding{join(path, fmt.Sprint(k.Interface())), "Validate", "map-key", fmt.Sprintf("key %s.Validate() = %v (key %q)", k.Type(), err, k.Interface())})
+			}
 			walkValue(v.MapIndex(k), join(path, fmt.Sprint(k.Interface())), "map-entry", tag, out)
 		}
 	}
